@@ -373,3 +373,92 @@ func containsTag(tags, tag string) bool {
 	}
 	return false
 }
+
+// GenNpmConflict draws small alias-free, bundle-free universes rich in conflict cycles
+// (finding F-C06-conflict-cycle: the resolver does not terminate on some of them). Two shapes:
+// (1) the template cycle p0@v -> p1@v -> … -> p(n-1)@v -> p0@other-v over n = 2..4 packages with
+// two versions each, every version also requiring itself (this one never finishes), with
+// random damage: a self-requirement or a cycle edge dropped or loosened to a range, extra
+// versions, extra leaf requirements; (2) dense random pins: 3-4 packages x 2-3 versions, each
+// version requiring each package (itself included) at a random exact version with
+// probability 1/2 (about one resolution in a hundred does not finish).
+func GenNpmConflict(r *rand.Rand) *NpmUniverse {
+	perm := r.Perm(len(npmNamePool))
+	pool := func(k int) []string { // k distinct version strings, ascending pool order
+		idx := r.Perm(len(npmVersionPool))[:k]
+		sort.Ints(idx)
+		out := make([]string, k)
+		for i, x := range idx {
+			out[i] = npmVersionPool[x]
+		}
+		return out
+	}
+	pin := func(v string) string {
+		switch r.Intn(6) {
+		case 0:
+			return "=" + v
+		case 1:
+			return v + " - " + v
+		}
+		return v
+	}
+	u := &NpmUniverse{}
+	if r.Intn(2) == 0 {
+		n := 2 + r.Intn(3)
+		names := make([]string, n)
+		vers := make([][]string, n)
+		for i := range names {
+			names[i] = npmNamePool[perm[i]]
+			vers[i] = pool(2)
+		}
+		damage := r.Intn(3) // 0: none
+		for i := 0; i < n; i++ {
+			for vi := 0; vi < 2; vi++ {
+				x := NpmVersion{Name: names[i], Version: vers[i][vi]}
+				if !(damage == 1 && r.Intn(2*n) == 0) {
+					x.Imports = append(x.Imports, NpmImport{Name: names[i], Req: pin(vers[i][vi])})
+				}
+				j, vj := (i+1)%n, vi
+				if i == n-1 {
+					vj = 1 - vi
+				}
+				req := pin(vers[j][vj])
+				if damage == 2 && r.Intn(2*n) == 0 {
+					req = pickS(r, "*", ">="+vers[j][0], "^"+vers[j][vj])
+				}
+				x.Imports = append(x.Imports, NpmImport{Name: names[j], Req: req})
+				u.Versions = append(u.Versions, x)
+			}
+		}
+		if r.Intn(3) == 0 { // a leaf package some versions also require
+			leaf := npmNamePool[perm[n]]
+			lv := pool(2)
+			u.Versions = append(u.Versions, NpmVersion{Name: leaf, Version: lv[0]}, NpmVersion{Name: leaf, Version: lv[1]})
+			for i := range u.Versions[:2*n] {
+				if r.Intn(3) == 0 {
+					u.Versions[i].Imports = append(u.Versions[i].Imports, NpmImport{Name: leaf, Req: pin(lv[r.Intn(2)])})
+				}
+			}
+		}
+		return u.Normalize()
+	}
+	n := 3 + r.Intn(2)
+	names := make([]string, n)
+	vers := make([][]string, n)
+	for i := range names {
+		names[i] = npmNamePool[perm[i]]
+		vers[i] = pool(2 + r.Intn(2))
+	}
+	for i := range names {
+		for _, v := range vers[i] {
+			x := NpmVersion{Name: names[i], Version: v}
+			for j := range names {
+				if r.Intn(2) == 0 {
+					x.Imports = append(x.Imports, NpmImport{Name: names[j], Req: pin(vers[j][r.Intn(len(vers[j]))])})
+				}
+			}
+			u.Versions = append(u.Versions, x)
+		}
+	}
+	return u.Normalize()
+}
